@@ -7,7 +7,8 @@ CONSTANTS
  Ns = {2}
  MsgVecs <- MV23
  CCoins <- AllZq
- SCoins <- AllZq
+ SCoins <- C4a
  Tamper = FALSE
+ PowM <- TabPowM
 INVARIANTS Correct HonestAbort Refusal OneOnly Curious CuriousPairs
 CHECK_DEADLOCK FALSE
